@@ -18,6 +18,8 @@ structure Participant where
   key : Bytes
   sig : Bytes
   selfSigOK : Bool := true
+  keyOK : Bool := true          -- the key bytes decode to a point of the key group (oracle label)
+  scheme : String := ""         -- the scheme the self-signature was made under (it signs the scheme name)
   deriving Repr, Inhabited
 
 /-- `util.EqualParticipant` -/
@@ -161,7 +163,7 @@ def validateEpoch (cur : DBState) (t : Terms) : Except Err Unit :=
 def validateForAllDKGs (cur : DBState) (t : Terms) (now : Int) : Except Err Unit := do
   if cur.beaconID != t.beaconID then throw .invalidBeaconID
   if !(Gen.schemeIDs.contains t.schemeID) then throw .invalidScheme
-  if !(t.joining.all (·.selfSigOK)) then throw .invalidKeyScheme
+  if !(t.joining.all (fun p => p.selfSigOK && p.scheme == t.schemeID)) then throw .invalidKeyScheme
   if t.timeout < now then throw .timeoutReached
   let nodeCount := t.joining.length + t.remaining.length
   if t.threshold > nodeCount then throw .thresholdHigherThanNodeCount
@@ -200,7 +202,8 @@ def validateProposal (cur : DBState) (t : Terms) (now : Int) : Except Err Unit :
   if t.epoch == 1 then validateFirstEpoch t
   else
     validateReshareTerms cur t
-    if cur.state != .fresh then validateReshareForRemainers cur t else pure ()
+    -- nodes that are Fresh, or that Left and only hold leftover state, take a reshare proposal at face value
+    if cur.state != .fresh && cur.state != .left then validateReshareForRemainers cur t else pure ()
 
 def stateFromTerms (d : DBState) (t : Terms) (st : Status) (seed : Bytes) : DBState :=
   { beaconID := d.beaconID, epoch := t.epoch, state := st, threshold := t.threshold, timeout := t.timeout,
